@@ -21,6 +21,7 @@ typedef struct pnode {
   int state; /* 0 fresh/in use, 1 reclaimed (in free list) */
   struct pnode* free_next;
 } pnode_t;
+static int far_nodes;
 static pnode_t* free_arr[128]; /* reclaimed nodes; reuse takes the node that was retired most recently two times out of three */
 static int nfree_arr, reuse_ctr;
 static pnode_t* free_list;
@@ -48,7 +49,9 @@ static NS mpmc_fifo_node_t* get_node(void) {
     nfree_arr--;
     reused_total++;
   } else {
-    p = malloc(sizeof *p);
+    /* every third fresh node lives more than 2 GiB above the others (the hazard scan sorts addresses) */
+    static int fresh;
+    p = far_nodes && (++fresh % 3 == 0) ? sim_alloc_high(sizeof *p) : malloc(sizeof *p);
   }
   p->state = 0;
   p->n.hazard.gc_data = NULL;
@@ -119,7 +122,8 @@ void h_run(void) {
     warmup[t] = wl_pct(50) ? 2 * nth * MPMC_HAZARD_COUNT - wl_int(0, 3) : wl_int(0, 2 * (nth + 1) * MPMC_HAZARD_COUNT);
     if (warmup[t] < 0) warmup[t] = 0;
   }
-  sim_describe("threads=%d ops=%d pushes=%d preempt=1/%d", nth, total, pushes, c.preempt_inv);
+  far_nodes = wl_pct(50);
+  sim_describe("threads=%d ops=%d pushes=%d far_apart_nodes=%d preempt=1/%d", nth, total, pushes, far_nodes, c.preempt_inv);
   if (nth >= 2 && total >= 3) sim_nontrivial();
   hist_reset(M_FIFO, 0);
   mpmc_fifo_init(&fifo, get_node());
